@@ -797,9 +797,10 @@ CLAIM = dict(
           "never-under. Plus a differential tie of the model to the real headers (row locations derived from the implementation, also recomputed "
           "in Lean from a model of libstdc++'s default_random_engine/uniform_int_distribution + MurmurHash3), and the property oracle (exact "
           "counts) on every implementation trace."),
-    note=("Constructor guard: the model reproduces the 32-bit size product of the current code; the full statement over all uint8 x uint32 "
-          "configurations is false for it (cm_ctor_full_false, witness replayed every run -> known finding ctor-size-product-overflow) and holds "
-          "when the product is computed in >= 40 bits (cm_ctor_sound). Not decided: the probabilistic sub-claim (over-estimate > eps*total with "
+    note=("Constructor guard: the pinned code evaluated num_hashes*num_buckets in 32 bits, so the full statement over all uint8 x uint32 "
+          "configurations was false (cm_ctor_full_false; e.g. (4, 2^30) accepted with 0 cells -> out-of-bounds write on update). Found by this "
+          "check and repaired in /repo (fix: b9ee092; known_findings.json: fixed); the translator reads the arithmetic width from the header "
+          "and cm_ctor_full_current proves the full statement for the guard as it is now. Not decided: the probabilistic sub-claim (over-estimate > eps*total with "
           "frequency <= 1-confidence). Not modelled: int64/uint64 overflow and floating-point rounding of weights (theorems are in exact "
           "arithmetic; the upper bound's double arithmetic is executed and bit-compared, not proved); num_hashes = 0."),
     technique="Lean 4 proofs by induction over streams / merge trees (parametric in the row hash and the weight type) + differential correspondence (model vs real headers) + exact-count trace oracle",
